@@ -29,7 +29,7 @@ type c09Case struct {
 	deflt     bool
 	naming    int // 0 Zqa, Zqb, ...; 1 names that are prefixes of one another / differ only in letter case
 	target    int // what is matched: 0 an annotated parameter, 1 the result of a call, 2 a let-bound constructor value, 3 like 2 on a generic union (instantiation inferred)
-	host      int // 0 top-level body, 1 if branch, 2 lambda body, 3 let rhs, 4 arm of outer match, 5 pipe stage, 6 block arm bodies
+	host      int // 0 top-level body, 1 if branch, 2 lambda body, 3 let rhs, 4 arm of outer match, 5 pipe stage, 6 block arm bodies, 7 initialiser of a top-level variable
 	src       string
 	src2      string // second file (two-file host)
 	accept    bool
@@ -56,7 +56,7 @@ func c09Name(i int) string {
 	return fmt.Sprintf("Zq%c", 'a'+i)
 }
 
-const c09Hosts = 7
+const c09Hosts = 8
 
 func c09Driver(maxN, hostMaxN int) func(c *explore.Chooser) *c09Case {
 	return func(c *explore.Chooser) *c09Case {
@@ -264,6 +264,14 @@ func c09Render(cs *c09Case, suffix string) string {
 		fmt.Fprintf(&sb, "let %s (u:%s) =\n  [u] |> slice.Map (fun (v:%s) ->\n    match v with\n%s    ) |> slice.Head\n", fn, un, un, arms("    ", false))
 	case 6:
 		fmt.Fprintf(&sb, "let %s (u:%s) =\n  match u with\n%s", fn, un, arms("  ", true))
+	case 7:
+		// the initialiser of a top-level VARIABLE (after seed C09k: diagnostics collected per definition and raised for
+		// functions only); the target is a constructor value
+		ctor0 := cs.nm(0) + suffix
+		if cs.payload[0] {
+			ctor0 = "(" + ctor0 + " 1)"
+		}
+		fmt.Fprintf(&sb, "let gv%s = match %s with\n%s\nlet %s (u:%s) =\n  gv%s\n", suffix, ctor0, arms("          ", false), fn, un, suffix)
 	}
 	return sb.String()
 }
@@ -454,7 +462,7 @@ func checkC09(c *core.Ctx) {
 					acceptedMu.Lock()
 					acceptedScope = append(acceptedScope, cs)
 					acceptedMu.Unlock()
-				} else if ok && cs.n <= 3 && cs.host < 100 && cs.target == 0 && cs.naming == 0 && !cs.dup {
+				} else if ok && cs.n <= 3 && cs.host < 100 && cs.host != 7 && cs.target == 0 && cs.naming == 0 && !cs.dup {
 					acceptedMu.Lock()
 					accepted = append(accepted, cs)
 					acceptedMu.Unlock()
